@@ -69,6 +69,7 @@ struct Model {
     std::string cls, detail;
     int bad_task = -1, bad_op = -1;
     // measures
+    uint64_t api_dispatches = 0;
     uint64_t dispatches = 0, midcall_regs = 0, nontrivial_dispatch = 0, inherited_open = 0, collapsed_to_inherit = 0, collapsed_to_none = 0;
     uint64_t tls_reuse = 0, children_of_registered = 0, first_prev_null = 0, first_prev_default = 0;
     std::set<uint64_t> states;
@@ -159,7 +160,7 @@ template <class T> static inline T opq(T v) { __asm__ volatile("" : "+r"(v)); re
 #define NUL(T) opq((T) nullptr)
 #define NUM(n) opq((size_t)(n))
 static void do_violation(Task &t, int kind, int which, bool preemptible) {
-    uint8_t *b = t.arena.base + 256;
+    uint8_t *b = t.arena.base + ARENA_SIZE - 6144; // above everything the generators allocate
     char *buf = (char *)b;
     char *src = (char *)b + 512;
     wchar_t *wbuf = (wchar_t *)(b + 1024);
@@ -199,6 +200,7 @@ static void do_violation(Task &t, int kind, int which, bool preemptible) {
     (void)wbuf;
 }
 
+static int api_kind(int fn);
 static void c13_exec(Task &t, const Op &op, OpResult &r) {
     int me = t.id;
     if (t.cur_op == 0) {
@@ -261,7 +263,7 @@ static void c13_exec(Task &t, const Op &op, OpResult &r) {
         break;
     }
     case OP_OK: {
-        char *buf = (char *)t.arena.base + 256;
+        char *buf = (char *)t.arena.base + ARENA_SIZE - 6144;
         if (op.a[0] & 1) r.ret = _strcpy_s_chk(buf, 32, "fine", BOS_UNKNOWN);
         else r.ret = _memcpy_s_chk(buf, 32, "0123456789", 8, BOS_UNKNOWN, BOS_UNKNOWN);
         break;
@@ -292,9 +294,50 @@ static void c13_exec(Task &t, const Op &op, OpResult &r) {
         }
         break;
     }
-    default: break;
+    default:
+        if (op.fn >= 0 && op.fn < FN_COUNT) {
+            int k = api_kind(op.fn);
+            InFlight &f = M.fl[me];
+            f.active = k >= 0;
+            f.kind = k < 0 ? 0 : k;
+            f.gadm = M.G[f.kind];
+            f.invocations = 0;
+            f.regs_before = M.regs[f.kind] + M.tregs[me][f.kind];
+            exec_api_op(t, op, r);
+            f.active = false;
+            if (f.invocations) {
+                M.dispatches++;
+                M.api_dispatches++;
+                if (f.regs_before >= 2) M.nontrivial_dispatch++;
+            }
+        }
+        break;
     }
 }
+
+// ------------------------------------------------------------------ which kind of handler an API function reports through
+// Only functions that report every violation through one and the same dispatcher on the unchanged tree AND whose
+// name puts them on that side (str*/wcs*/printf/time/... -> string handler, mem*/wmem* -> memory handler) are
+// listed; the others (memchr_s/memrchr_s use the string dispatcher, strcspn_s/bsearch_s are mixed, ...) are not
+// used as violating calls in histories. Table produced with VERIF_CALIBRATE=1 (c13_calibrate below).
+static int api_kind(int fn) {
+    switch (fn) {
+    case FN_memset_s: case FN_memset16_s: case FN_memset32_s: case FN_memcpy_s: case FN_memcpy16_s: case FN_memcpy32_s:
+    case FN_memmove_s: case FN_memmove16_s: case FN_memmove32_s: case FN_memcmp_s: case FN_memcmp16_s: case FN_memcmp32_s:
+    case FN_memzero_s: case FN_memzero16_s: case FN_memzero32_s: case FN_wmemcpy_s: case FN_wmemmove_s: case FN_wmemcmp_s:
+        return 1;
+    case FN_memchr_s: case FN_memrchr_s: case FN_memccpy_s: case FN_strcspn_s: case FN_bsearch_s: case FN_timingsafe_bcmp: case FN_timingsafe_memcmp:
+        return -1;
+    default: break;
+    }
+    switch (g_fn[fn].fam) {
+    case FAM_INPLACE: case FAM_COPY: case FAM_NCOPY: case FAM_FILL: case FAM_CMP: case FAM_SEARCH: case FAM_CONV: case FAM_FMT: case FAM_WFMT:
+    case FAM_TOK: case FAM_TIME: case FAM_UNI: case FAM_SORT:
+        return 0;
+    default: return -1; // stream and file functions are not used in histories
+    }
+}
+static const int g_api_fams[] = {FAM_INPLACE, FAM_COPY, FAM_NCOPY, FAM_FILL, FAM_CMP, FAM_SEARCH, FAM_CONV, FAM_FMT, FAM_WFMT, FAM_TOK, FAM_TIME, FAM_UNI, FAM_SORT};
 
 // ------------------------------------------------------------------ generation
 static void gen_history(Rng &r, Plan &plan) {
@@ -319,6 +362,37 @@ static void gen_history(Rng &r, Plan &plan) {
             else if (k < 19) { op.fn = OP_VIOL_MEM; op.a[0] = r.below(7); }
             else { op.fn = OP_OK; op.a[0] = r.below(2); }
             tp.ops.push_back(op);
+        }
+    }
+    // tier 3: in a third of the histories the violating calls are arbitrary API calls with a documented
+    // violation (whole-API generators), so that every function's own error paths are dispatched
+    if (r.chance(1, 3)) {
+        GenCfg g;
+        g.faults = false;
+        g.violations = true;
+        g.force_violation = true;
+        for (int i = 0; i < n; i++) {
+            TaskPlan &tp = plan.tasks[i];
+            uint32_t top = 64;
+            std::vector<Op> out;
+            for (Op &op : tp.ops) {
+                if (op.fn != OP_VIOL_STR && op.fn != OP_VIOL_MEM) { out.push_back(op); continue; }
+                TaskPlan tmp;
+                bool ok = false;
+                for (int tries = 0; tries < 4 && !ok; tries++) {
+                    tmp.ops.clear();
+                    uint32_t save = top;
+                    ok = gen_op(r, g_api_fams[r.below(sizeof g_api_fams / sizeof *g_api_fams)], tmp, &top, g, false, 0) && !tmp.ops.empty();
+                    if (ok)
+                        for (Op &x : tmp.ops)
+                            if (api_kind(x.fn) < 0) ok = false;
+                    if (!ok) top = save;
+                }
+                if (ok) for (Op &x : tmp.ops) out.push_back(x);
+                else out.push_back(op);
+            }
+            if (out.size() > 24) out.resize(24);
+            tp.ops = out;
         }
     }
     for (int i = roots; i < n; i++) {
@@ -350,6 +424,7 @@ static const char *opname(int fn) {
     case OP_SPAWN: return "spawn";
     case OP_JOIN: return "join";
     }
+    if (fn >= 0 && fn < FN_COUNT) return g_fn[fn].name;
     return "?";
 }
 static std::string history_json(const Plan &p, const Schedule *s) {
@@ -480,6 +555,7 @@ struct C13Stats {
     uint64_t histories = 0, ops = 0, events = 0, switches = 0, inner_switches = 0, threads = 0;
     uint64_t tier1 = 0, tier2 = 0;
     uint64_t opk[9] = {0};
+    uint64_t api_dispatches = 0, api_ops = 0;
     uint64_t dispatches = 0, midcall_regs = 0, nontrivial = 0, tls_reuse = 0, children_of_registered = 0, collapsed_inherit = 0, collapsed_none = 0;
     uint64_t first_prev_null = 0, first_prev_default = 0, det_checked = 0, nondeterministic = 0;
     std::set<uint64_t> fingerprints, states;
@@ -498,7 +574,7 @@ static void flush_stats(C13Stats &st, const Args &a) {
     add("threads", st.threads); add("tier1", st.tier1); add("tier2", st.tier2); add("dispatches", st.dispatches); add("midcall_regs", st.midcall_regs);
     add("nontrivial", st.nontrivial); add("tls_reuse", st.tls_reuse); add("children_of_registered", st.children_of_registered);
     add("collapsed_inherit", st.collapsed_inherit); add("collapsed_none", st.collapsed_none); add("first_prev_null", st.first_prev_null);
-    add("first_prev_default", st.first_prev_default); add("det_checked", st.det_checked); add("nondeterministic", st.nondeterministic);
+    add("first_prev_default", st.first_prev_default); add("api_dispatches", st.api_dispatches); add("api_ops", st.api_ops); add("det_checked", st.det_checked); add("nondeterministic", st.nondeterministic);
     static const char *names[] = {"set_str", "set_mem", "thrd_set_str", "thrd_set_mem", "violate_str", "violate_mem", "ok_call", "spawn", "join"};
     s += ",\"op_kinds\":{";
     for (int i = 0; i < 9; i++) s += (i ? "," : "") + jstr(names[i]) + ":" + std::to_string(st.opk[i]);
@@ -549,6 +625,35 @@ int c13_batch(const Args &a) {
         g_cur_seed = a.seed;
         g_cur_run = i;
         g_cur_tier2 = tier2;
+        // pre-flight: the generated API calls of this history, each thread's alone and with no registration made.
+        // A crash here is a defect of that function on that input (some other property's business), not of the
+        // dispatch rule; the driver ignores deaths in this phase, like solo crashes of C12.
+        {
+            Plan pre;
+            pre.locale = plan.locale;
+            bool any = false;
+            for (auto &tp : plan.tasks) {
+                TaskPlan q;
+                q.arena_seed = tp.arena_seed;
+                for (auto &op : tp.ops)
+                    if (op.fn < FN_COUNT) { q.ops.push_back(op); any = true; }
+                pre.tasks.push_back(q);
+            }
+            if (any) {
+                printf("BEGIN %llu preflight\n", (unsigned long long)i);
+                g_cur_plan = nullptr;
+                g_handler_hook = nullptr;
+                for (size_t t = 0; t < pre.tasks.size(); t++) {
+                    if (pre.tasks[t].ops.empty()) continue;
+                    Schedule empty;
+                    empty.start = (int)t;
+                    ReplayStrategy rs0(empty, (int)pre.tasks.size());
+                    PassResult pr0;
+                    run_pass(pre, api_cfg(PASS_SOLO, (int)t, false), rs0, pr0);
+                }
+                g_cur_plan = &plan;
+            }
+        }
         printf("BEGIN %llu history\n", (unsigned long long)i);
         Strategy *strat;
         uint64_t est = 2000;
@@ -565,10 +670,11 @@ int c13_batch(const Args &a) {
         for (auto &w : ro.rec.sw)
             if (w.ev > 0 && w.ev != 0xffffffffu) st.inner_switches++;
         for (auto &tp : plan.tasks)
-            for (auto &op : tp.ops) { st.ops++; st.opk[opidx(op.fn)]++; }
+            for (auto &op : tp.ops) { st.ops++; if (op.fn < FN_COUNT) st.api_ops++; else st.opk[opidx(op.fn)]++; }
         for (Task *t : g_sim.tasks)
             if (t->state == T_DONE) st.threads++;
         st.dispatches += M.dispatches;
+        st.api_dispatches += M.api_dispatches;
         st.midcall_regs += M.midcall_regs;
         st.tls_reuse += M.tls_reuse;
         st.children_of_registered += M.children_of_registered;
